@@ -139,6 +139,43 @@ def run(R):
                          "this node's quote.content equals the stored address")
         R.must_call("C03.pay.own-quotes", PAY, ["ant_evm::data_payments::ProofOfPayment::quotes_by_peer"], "the compared quotes are this node's (quotes_by_peer)")
 
+    # (3b) the on-chain check itself (evmlib): Ok only if the contract reports every submitted quote as valid, over the full proof
+    from rules import FieldBoolGuard, _chain_calls, DROPPING_ADAPTORS
+    from flow import backward_calls
+    VDP = "evmlib::contract::payment_vault::verify_data_payment::{closure#0}"
+    vd = R.body("C03.evm", VDP)
+    if vd is not None:
+        prep(vd)
+        R.gate_reject("C03.evm.valid", vd, RetSink("Ok"), [FieldBoolGuard("isValid", True, "every PaymentVerificationResult.isValid")],
+                      descr="verify_data_payment is Ok only if the contract reports every submitted quote as paid")
+        R.gate("C03.evm.call", vd, RetSink("Ok"), [[CallGuard(["*PaymentVaultHandler<T, P, N>::verify_payment", "*::verify_payment"], ("Ok",), "contract call verify_payment is Ok")]],
+               descr="verify_data_payment is Ok only if the contract call succeeded")
+        # everything in the proof is submitted, and every result is inspected
+        from rules import PL
+        vp_ = [b for b in vd.blocks if b["term"]["k"] == "call" and not b["cleanup"] and (b["term"]["ncallee"] or "").endswith("::verify_payment")]
+        okv = bool(vp_)
+        names = []
+        if okv:
+            names, _ = _chain_calls(F, vd, op_local(vp_[0]["term"]["args"][1]))
+            locs, _ = backward_calls(vd, op_local(vp_[0]["term"]["args"][1]))
+            dropped = [n for n in names if any(n.endswith(x) for x in DROPPING_ADAPTORS)]
+            okv = not dropped and bool(locs & PL(vd, 2))
+            if dropped or not (locs & PL(vd, 2)):
+                R.viol("C03.evm.all", "not-all-quotes", "verify_data_payment does not submit every quote of the proof to the contract (%s)" % (dropped or "input is not the payment parameter"), vd, vp_[0]["term"]["l"])
+            loops = [b for b in vd.blocks if b["term"]["k"] == "call" and not b["cleanup"] and (b["term"]["ngen"] or "").endswith("collect::IntoIterator::into_iter")]
+            res = Taint(vd, through="all").closure({vp_[0]["term"]["d"][0]})
+            it = [b for b in loops if op_local(b["term"]["args"][0]) in res]
+            if it:
+                n2, _ = _chain_calls(F, vd, op_local(it[0]["term"]["args"][0]))
+                d2 = [n for n in n2 if any(n.endswith(x) for x in DROPPING_ADAPTORS)]
+                if d2:
+                    okv = False
+                    R.viol("C03.evm.all", "results-dropped", "verify_data_payment skips some verification results (%s)" % d2[0], vd, it[0]["term"]["l"])
+            else:
+                okv = False
+                R.viol("C03.evm.all", "results-not-inspected", "verify_data_payment does not iterate the contract's verification results", vd, vd.lines[0])
+        R.inst("C03.evm.all", "K6 flows-to", "all quotes of the proof are submitted; all results are inspected", len(vp_), okv, {"chain": names[:8]})
+
     # (4) verify_for
     from props.C13 import verify_for_rules
     verify_for_rules(R, "C03")
